@@ -110,6 +110,19 @@ def emode_dupes(pid):
     return f
 
 
+def accepted_invalid_curve(pid):
+    def f(op, impl, model):
+        """adm.ixir / adm.ixcfg: the REAL instruction stored a configuration that the (modelled, diffed) validation rejects"""
+        if not (op.startswith("adm.ixir") or op.startswith("adm.ixcfg")):
+            return None
+        if impl.startswith("ok") and model.startswith("err"):
+            what = "lending_pool_configure_bank_interest_only" if op.startswith("adm.ixir") else "lending_pool_configure_bank"
+            return (f"{pid} {what} ACCEPTED and stored a configuration that validation rejects ({model}): an accepted interest / bank "
+                    f"configuration is no longer guaranteed to be usable (curve defined, bounded, monotone; weights coherent): {op}")
+        return None
+    return f
+
+
 def c16_foc(op, impl, model):
     """acct.foc <16 slots x 5> bank tag now  =>  ok <16 slots x 5: active bank tag a l> <slot bank> <slot tag>"""
     if not op.startswith("acct.foc"):
@@ -131,13 +144,65 @@ def c16_foc(op, impl, model):
     return None
 
 
+def ixf_tokens(pid):
+    """ix.dep / ix.rep / ix.wd / ix.bor  =>  ok <bank> <lastUpdate> <has pos> <position x7> <tokens moved>:
+    the SAME booking (bank and position bit for bit) for a different number of tokens moved"""
+    def f(op, impl, model):
+        kind = op.split(" ", 1)[0]
+        if kind not in ("ix.dep", "ix.rep", "ix.wd", "ix.bor"):
+            return None
+        i, m = _nums(impl), _nums(model)
+        if not i or not m or len(i) != len(m) or i[:-1] != m[:-1]:
+            return None
+        ti, tm = i[-1], m[-1]
+        if kind in ("ix.dep", "ix.rep") and ti < tm:
+            return (f"{pid} a {'deposit' if kind == 'ix.dep' else 'repayment'} booked exactly the credit the exact accounting books for {tm} tokens sent "
+                    f"(what the vault must receive after the mint's transfer fee), but only {ti} tokens were collected: the user is credited more than was paid in "
+                    f"and the vault falls short of the claims: {op}")
+        if kind in ("ix.wd", "ix.bor") and ti > tm:
+            return (f"{pid} a {'withdrawal' if kind == 'ix.wd' else 'borrow'} debited exactly what the exact accounting debits for {tm} tokens, "
+                    f"but {ti} tokens were paid out: {op}")
+        return None
+    return f
+
+
+def c05_liq(op, impl, model):
+    """liq.amounts <seized> <asset price> <debt price> <asset decimals> <debt decimals> => ok <liquidator side> <liquidatee relief> <whole fee> <fee fraction>"""
+    if not op.startswith("liq.amounts"):
+        return None
+    i, m = _nums(impl), _nums(model)
+    if not i or not m or len(i) != 4 or len(m) != 4 or i == m:
+        return None
+    a = op.split()
+    return (f"C05 seizing {a[1]} units of a {a[4]}-decimals collateral (price bits {a[2]}) against a {a[5]}-decimals debt (price bits {a[3]}): the liquidator's side is "
+            f"{i[0]} and the liquidatee's relief {i[1]} (insurance {i[2]} whole + {i[3]} fraction), but 97.5 % / 95 % of the seized value converted at the debt price "
+            f"is {m[0]} / {m[1]} (insurance {m[2]} + {m[3]}) [I80F48 bits]")
+
+
+def value_scaling(pid):
+    """liq.value / liq.amount: calc_value / calc_amount for one bank's decimals"""
+    def f(op, impl, model):
+        if not (op.startswith("liq.value") or op.startswith("liq.amount ")):
+            return None
+        i, m = _nums(impl), _nums(model)
+        if not i or not m or i == m:
+            return None
+        return (f"{pid} the valuation primitive {'calc_value' if op.startswith('liq.value') else 'calc_amount'} returns {i[0]} where the exact "
+                f"amount x price / 10^decimals (rounded down) is {m[0]}: {op}")
+    return f
+
+
 WITNESS = {
     "C04": [c04_health, emode_dupes("C04")],
-    "C13": [emode_dupes("C13")],
-    "C05": [c05_health],
+    "C13": [emode_dupes("C13"), accepted_invalid_curve("C13")],
+    "C18": [accepted_invalid_curve("C18")],
+    "C12": [accepted_invalid_curve("C12")],
+    "C05": [c05_health, c05_liq, value_scaling("C05")],
     "C07": [c07_health, c07_soc],
     "C09": [c09_health],
     "C16": [c16_foc],
+    "C03": [ixf_tokens("C03")],
+    "C01": [ixf_tokens("C01")],
 }
 
 
